@@ -38,38 +38,106 @@ def numba_formatter(st_):
     return Formatter(st_)
 
 
-def c_math_name(scalar_type):
-    from ffcx.codegeneration.C.formatter import math_table
+# Names of the C99 <math.h>/<complex.h> and numpy functions that compute each LNodes math function - written down here from
+# the C standard / numpy documentation, NOT read from FFCx's tables, so that a wrong table entry in a formatter is a round-trip
+# failure (the text would call another function than the tree says).
+_C_REAL = {"abs": "fabs", "power": "pow", "ln": "log", "atan_2": "atan2", "atan2": "atan2", "min_value": "fmin", "max_value": "fmax",
+           "bessel_j": "jn", "bessel_y": "yn"}
+_C_CPLX = {"abs": "cabs", "power": "cpow", "ln": "clog", "real": "creal", "imag": "cimag", "conj": "conj"}
+_C_CPLX_PREFIXED = {"sqrt", "cos", "sin", "tan", "acos", "asin", "atan", "cosh", "sinh", "tanh", "acosh", "asinh", "atanh", "exp"}
+_C_NO_SUFFIX = {"bessel_j", "bessel_y"}  # jn/yn take a double; there is no ISO/POSIX float variant the formatter could rely on
+COMPLEX_ONLY = {"real", "imag", "conj"}  # ufl_to_lnodes drops these for real operands; UFL removes them in real mode
+NO_COMPLEX_VERSION = {"erf", "atan_2", "atan2", "min_value", "max_value", "bessel_j", "bessel_y"}
+ALL_MATH = sorted(set(lnstrategies.MATH1) | set(lnstrategies.MATH2) | set(lnstrategies.MATH_COMPLEX) | set(lnstrategies.MATH_BESSEL))
+
+
+def c_std_name(name, typ):
+    cplx = typ.startswith("complex")
+    if cplx and name in _C_CPLX:
+        base = _C_CPLX[name]
+    elif cplx and name in _C_CPLX_PREFIXED:
+        base = "c" + name
+    else:
+        base = _C_REAL.get(name, name)
+    if typ in ("float32", "complex64") and name not in _C_NO_SUFFIX:
+        base += "f"
+    return base
+
+
+def _operand_type(args, scalar_type):
+    """C type class the function is applied to: the real type for REAL operands, else the scalar type (as the formatter documents)."""
     from ffcx.codegeneration.utils import dtype_to_scalar_dtype
 
-    real = np.dtype(dtype_to_scalar_dtype(scalar_type)).name
+    dt = lntree.build(args[0]).dtype.name
+    return np.dtype(dtype_to_scalar_dtype(scalar_type)).name if dt == "REAL" else np.dtype(scalar_type).name
 
+
+def c_math_name(scalar_type):
     def f(name, args):
-        dt = lntree.build(args[0]).dtype.name
-        tab = math_table[real if dt == "REAL" else np.dtype(scalar_type).name]
-        return tab.get(name, name)
+        return c_std_name(name, _operand_type(args, scalar_type))
 
     return f
 
 
-def c_math_inverse(scalar_type):
-    from ffcx.codegeneration.C.formatter import math_table
+def widen_ok(parsed, scalar_type):
+    """In a 32-bit kernel, calling the double-precision variant (no 'f' suffix) means the same function at higher precision:
+    rename it to the expected 32-bit name before comparing.  The opposite (an 'f' function in a 64-bit kernel) is not accepted."""
+    if np.dtype(scalar_type).name not in ("float32", "complex64"):
+        return parsed
+    ren = {}
+    for k in ALL_MATH:
+        for t in ("float32", "complex64"):
+            n = c_std_name(k, t)
+            if n.endswith("f") and k not in _C_NO_SUFFIX:
+                ren[n[:-1]] = n
+    # names that are their own 32-bit form must not be renamed (jn, yn, conj -> conjf is fine)
+    return _rename_math_deep(parsed, ren)
 
+
+def c_math_inverse(scalar_type):
     inv = {}
     for tname in ("float64", "float32", "complex128", "complex64"):
-        for k, v in math_table[tname].items():
-            inv.setdefault(v, k)
+        for k in ALL_MATH:
+            inv.setdefault(c_std_name(k, tname), k)
     return inv
 
 
-_NP_MAP = {"ln": "log", "acos": "arccos", "asin": "arcsin", "atan": "arctan", "atan2": "arctan2", "acosh": "arccosh",
-           "asinh": "arcsinh", "atanh": "arctanh"}
+_NP_MAP = {"ln": "np.log", "acos": "np.arccos", "asin": "np.arcsin", "atan": "np.arctan", "atan2": "np.arctan2", "atan_2": "np.arctan2",
+           "acosh": "np.arccosh", "asinh": "np.arcsinh", "atanh": "np.arctanh", "min_value": "np.minimum", "max_value": "np.maximum",
+           "erf": "math.erf", "bessel_j": "scipy.special.jn", "bessel_y": "scipy.special.yn"}
 
 
 def py_math_name(name, args):
-    if name == "erf":
-        return "math.erf"
-    return "np." + _NP_MAP.get(name, name)
+    return _NP_MAP.get(name, "np." + name)
+
+
+def math_domain_skip(tree, lang):
+    """Reason why `tree` is outside the well-typed domain for `lang` (or None).
+
+    real/imag/conj only exist for complex scalar types (UFL removes them in real mode and ufl_to_lnodes drops them for real
+    operands); erf, atan2, min/max and Bessel functions have no complex version in C, so applying them to a complex-typed
+    operand is not something a well-typed kernel body contains.
+    """
+    which, stype = lang.split(":")
+    cplx = "complex" in stype
+    for node in lntree.walk(tree):
+        if isinstance(node, list) and node and node[0] == "Math":
+            name, args = node[1], node[2]
+            if name in COMPLEX_ONLY:
+                if not (cplx and which == "c"):
+                    return "complex-only function in a real-typed kernel"
+                try:
+                    if lntree.build(args[0]).dtype.name != "SCALAR":
+                        return "real/imag/conj of a non-SCALAR operand (ufl_to_lnodes never builds it)"
+                except Exception:
+                    return "unbuildable operand"
+            if name in NO_COMPLEX_VERSION and cplx and args:
+                try:
+                    if any(lntree.build(a).dtype.name == "SCALAR" for a in args):
+                        return "function without complex version applied to a SCALAR operand"
+                except Exception:
+                    return "unbuildable operand"
+    return None
 
 
 def has_nontrivial_edge(t):
@@ -159,7 +227,7 @@ def _rename_math_deep(t, inv):
     return t
 
 
-def check_expression(tree, seed=0, langs=("c:float64", "c:complex64", "numba:float64")):
+def check_expression(tree, seed=0, langs=("c:float64", "c:float32", "c:complex64", "c:complex128", "numba:float64")):
     """Round-trip one expression tree through the formatters.  Returns list of problem dicts."""
     problems = []
     try:
@@ -169,6 +237,10 @@ def check_expression(tree, seed=0, langs=("c:float64", "c:complex64", "numba:flo
     for lang in langs:
         which, stype = lang.split(":")
         complex_ = "complex" in stype
+        skip = math_domain_skip(tree, lang)
+        if skip:
+            problems.append({"kind": "outside-domain", "lang": lang, "detail": skip, "soft": True})
+            continue
         # complex literals / SCALAR symbols only make sense for complex scalar types in value terms, but the
         # formatter must print them regardless; the structural check is always applied.
         try:
@@ -178,6 +250,8 @@ def check_expression(tree, seed=0, langs=("c:float64", "c:complex64", "numba:flo
             continue
         try:
             parsed = cparse.parse_c_expression(text) if which == "c" else cparse.parse_py_expression(text)
+            if which == "c":
+                parsed = widen_ok(parsed, stype)
         except cparse.ParseFailure as e:
             problems.append({"kind": "syntax", "lang": lang, "detail": f"{e}", "text": text})
             continue
@@ -200,6 +274,14 @@ def check_expression(tree, seed=0, langs=("c:float64", "c:complex64", "numba:flo
                 v1 = lntree.eval_expr(_rename_math_deep(parsed, c_math_inverse(stype)), env)
             else:
                 pyenv = {"np": np, "math": math}
+                if "scipy" in text:
+                    from .c18 import scipy_available
+
+                    if not scipy_available():
+                        continue
+                    import scipy.special
+
+                    pyenv["scipy"] = scipy
                 for k, v in env.items():
                     pyenv[k] = _HArr(v) if callable(v) else v
                 with np.errstate(all="ignore"):
@@ -222,6 +304,10 @@ def check_statements(stmts, langs=("c:float64", "c:complex128", "numba:float64")
         return [{"kind": "not-constructible", "lang": "-", "detail": f"{type(e).__name__}: {e}"}]
     for lang in langs:
         which, stype = lang.split(":")
+        skip = math_domain_skip(["List", stmts], lang)
+        if skip:
+            problems.append({"kind": "outside-domain", "lang": lang, "detail": skip, "soft": True})
+            continue
         try:
             text = (c_formatter(stype) if which == "c" else numba_formatter(stype))(node)
         except Exception as e:
@@ -229,6 +315,8 @@ def check_statements(stmts, langs=("c:float64", "c:complex128", "numba:float64")
             continue
         try:
             parsed = cparse.parse_c_statements(text) if which == "c" else cparse.parse_py_statements(text)
+            if which == "c":
+                parsed = widen_ok(parsed, stype)
         except cparse.ParseFailure as e:
             problems.append({"kind": "syntax", "lang": lang, "detail": f"{e}", "text": text})
             continue
@@ -307,6 +395,20 @@ def run(tier: str) -> int:
                       bucket=f"{PROP}:depth2:{o.bucket.split(':')[1]}:{o.bucket.split(':')[2]}:{parent}>{child.rstrip('0123456789+-c') or child}")
         elif o.status == "ok":
             triples_ok += 1
+    # (1b) every math function x operand type class x scalar type (the formatters' name tables, exhaustively)
+    nmath = 0
+    for name in ALL_MATH:
+        for operand in (["Sym", "a", "REAL"], ["Sym", "s", "SCALAR"], ["Acc", "w", "SCALAR", [["Sym", "i", "INT"]]]):
+            args = [operand] if name not in lnstrategies.MATH2 + lnstrategies.MATH_BESSEL else (
+                [["LitI", 1], operand] if name in lnstrategies.MATH_BESSEL else [operand, ["Sym", "b", "REAL"]])
+            tree = ["Math", name, args]
+            o = outcome_for_expr(tree, 777)
+            nmath += 1
+            run_.case(o.case_id, o.status == "ok", sample=None, classes=["math-table"])
+            if o.status == "violation":
+                run_.fail(f"{PROP}:math-table:{name}:{operand[2]}:{o.bucket.split(':')[1]}", f"math function {name} on a {operand[2]} operand: {o.what}", o.replay,
+                          bucket=f"{PROP}:math-table:{name}:{o.bucket.split(':')[1]}")
+    run_.extra["math_functions_enumerated"] = nmath
     run_.extra["depth2_triples_enumerated"] = len(trees)
     run_.extra["depth2_triples_round_tripped"] = triples_ok
     run_.extra["depth2_exhaustive"] = True
@@ -318,7 +420,7 @@ def run(tier: str) -> int:
         run_.extra["atheris"] = fuzz_campaign(run_, seconds=240)
     run_.assumptions = [
         "pycparser's C grammar and CPython's ast are the reference grammars",
-        "math function names are mapped through the formatter's own tables (naming is judged by C09/C18, structure here)",
+        "math function names are judged against the C99 <math.h>/<complex.h> and numpy names written down in the harness (not FFCx's tables)",
         "INT/INT division and conditions used as arithmetic operands are outside the generated domain (ill-typed)",
     ]
     return run_.finish()
